@@ -241,8 +241,13 @@ class Ctx:
                 except PyRaise as e:
                     if self.feasible([], 1500):
                         if len(self.pc) > base:
-                            raise Unsupported(f"exception {e.exc_type} raised conditionally inside a merged (expression-level) evaluation")
-                        raise
+                            if getattr(self, "raise_as_false", False):
+                                # spec expression: where it cannot be evaluated it does not hold
+                                results.append((list(self.pc[base:]), False))
+                            else:
+                                raise Unsupported(f"exception {e.exc_type} raised conditionally inside a merged (expression-level) evaluation")
+                        else:
+                            raise
                 finally:
                     self.in_merged -= 1
                 work.extend(self.pending)
